@@ -1849,6 +1849,13 @@ func (m *Model) ruleCHECKPOINT(r *Results) {
 					for _, arg := range c2.Common().Args {
 						if m.isMarkPlusOne(arg, casField, 0) {
 							resumed = true
+							// nothing else the feed object holds flows into the start position: a start
+							// above mark + 1 skips mutations no run has delivered
+							if other := m.otherFeedFieldInto(arg, casField, 0, map[ssa.Value]bool{}); other != nil {
+								r.bad(rule, m.declName(f)+" / start position only from the mark", m.instrPos(c2), "the start position of a resumed backfill is also taken from the feed's field %s, not only from (persisted mark + 1): mutations between the mark and that value are never delivered by any run", other.Name())
+							} else {
+								r.ok(rule, m.declName(f)+" / start position only from the mark", m.instrPos(c2), "no other field of the feed object flows into the start position")
+							}
 						}
 					}
 				}
@@ -2006,6 +2013,94 @@ func (m *Model) isMarkPlusOne(v ssa.Value, casField *types.Var, depth int) bool 
 		}
 	}
 	return false
+}
+
+// otherFeedFieldInto: a field of the struct that owns the delivered-CAS mark, other than the mark,
+// among the sources (through phis, cells, +/- constants and package helpers' results) of v.
+func (m *Model) otherFeedFieldInto(v ssa.Value, casField *types.Var, depth int, seen map[ssa.Value]bool) *types.Var {
+	if depth > 6 || v == nil {
+		return nil
+	}
+	v = stripConv(v)
+	if seen[v] {
+		return nil
+	}
+	seen[v] = true
+	owns := func(t types.Type) bool {
+		if p, ok := t.Underlying().(*types.Pointer); ok {
+			t = p.Elem()
+		}
+		st, ok := t.Underlying().(*types.Struct)
+		if !ok {
+			return false
+		}
+		for i := 0; i < st.NumFields(); i++ {
+			if st.Field(i) == casField {
+				return true
+			}
+		}
+		return false
+	}
+	switch x := v.(type) {
+	case *ssa.Phi:
+		for _, e := range x.Edges {
+			if f := m.otherFeedFieldInto(e, casField, depth+1, seen); f != nil {
+				return f
+			}
+		}
+	case *ssa.BinOp:
+		if x.Op == token.ADD || x.Op == token.SUB {
+			if _, isC := x.Y.(*ssa.Const); isC {
+				return m.otherFeedFieldInto(x.X, casField, depth+1, seen)
+			}
+		}
+	case *ssa.Field:
+		if f := fieldOfField(x); f != casField && owns(x.X.Type()) {
+			return f
+		}
+	case *ssa.UnOp:
+		if x.Op != token.MUL {
+			return nil
+		}
+		if fa, ok := x.X.(*ssa.FieldAddr); ok {
+			if f := fieldOf(fa); f != casField && owns(fa.X.Type()) {
+				return f
+			}
+			return nil
+		}
+		if al, ok := x.X.(*ssa.Alloc); ok {
+			for _, ref := range *al.Referrers() {
+				if st, ok := ref.(*ssa.Store); ok && st.Addr == ssa.Value(al) {
+					if f := m.otherFeedFieldInto(st.Val, casField, depth+1, seen); f != nil {
+						return f
+					}
+				}
+			}
+		}
+	case *ssa.Extract:
+		if call, ok := x.Tuple.(*ssa.Call); ok {
+			if callee := call.Common().StaticCallee(); callee != nil && m.inPkg(callee) {
+				for _, ret := range returnsOf(callee) {
+					if x.Index < len(ret.Results) {
+						if f := m.otherFeedFieldInto(ret.Results[x.Index], casField, depth+1, seen); f != nil {
+							return f
+						}
+					}
+				}
+			}
+		}
+	case *ssa.Call:
+		if callee := x.Common().StaticCallee(); callee != nil && m.inPkg(callee) {
+			for _, ret := range returnsOf(callee) {
+				if len(ret.Results) > 0 {
+					if f := m.otherFeedFieldInto(ret.Results[0], casField, depth+1, seen); f != nil {
+						return f
+					}
+				}
+			}
+		}
+	}
+	return nil
 }
 
 func (m *Model) resultIsMarkPlusOne(call *ssa.Call, idx int, casField *types.Var, depth int) bool {
